@@ -419,3 +419,139 @@ def event_index(path: Path, event: Event) -> int:
         if candidate is event:
             return pos
     return len(path.events)
+
+
+# ------------------------------------------------------ order-preserving maps
+class SeqMap:
+    """``name`` holds ``[elt(var) for var in src]``, built by a comprehension or by an
+    append loop; ``stmts`` are the statements that build it"""
+
+    def __init__(self, name, src, var, elt, stmts, kind):
+        self.name, self.src, self.var, self.elt = name, src, var, elt
+        self.stmts, self.kind = stmts, kind
+
+    def __repr__(self):
+        return '<%s = [%s for %s in %s] (%s)>' % (
+            self.name, ast.unparse(self.elt), self.var, ast.unparse(self.src), self.kind)
+
+
+def _blocks(fnode):
+    """every statement list of a function body (not of nested definitions)"""
+    stack = [fnode.body]
+    while stack:
+        block = stack.pop()
+        yield block
+        for stmt in block:
+            if isinstance(stmt, (ast.FunctionDef, ast.AsyncFunctionDef, ast.ClassDef)):
+                continue
+            for field in ('body', 'orelse', 'finalbody'):
+                sub = getattr(stmt, field, None)
+                if isinstance(sub, list) and sub and isinstance(sub[0], ast.stmt):
+                    stack.append(sub)
+            for handler in getattr(stmt, 'handlers', []):
+                stack.append(handler.body)
+
+
+def substitute_temps(stmts, expr):
+    """``expr`` with names assigned by the straight-line ``stmts`` before it replaced"""
+    import copy
+    env = {}
+
+    class Sub(ast.NodeTransformer):
+        def visit_Name(self, node):
+            if isinstance(node.ctx, ast.Load) and node.id in env:
+                return copy.deepcopy(env[node.id])
+            return node
+    for stmt in stmts:
+        if isinstance(stmt, ast.Assign) and len(stmt.targets) == 1 and \
+                isinstance(stmt.targets[0], ast.Name):
+            env[stmt.targets[0].id] = Sub().visit(copy.deepcopy(stmt.value))
+        elif isinstance(stmt, ast.AnnAssign) and isinstance(stmt.target, ast.Name) and \
+                stmt.value is not None:
+            env[stmt.target.id] = Sub().visit(copy.deepcopy(stmt.value))
+    return Sub().visit(copy.deepcopy(expr))
+
+
+def straight_line(body) -> bool:
+    """only simple assignments and expression statements: every statement runs once"""
+    for stmt in body:
+        if not isinstance(stmt, (ast.Assign, ast.AnnAssign, ast.Expr)):
+            return False
+        if isinstance(stmt, ast.Assign) and not (
+                len(stmt.targets) == 1 and isinstance(stmt.targets[0], ast.Name)):
+            return False
+        for node in ast.walk(stmt):
+            if isinstance(node, (ast.Yield, ast.YieldFrom, ast.NamedExpr, ast.IfExp,
+                                 ast.BoolOp)) and False:
+                return False
+    return True
+
+
+def _mutations(fnode, name):
+    """statements/calls other than plain reads that touch the local list ``name``"""
+    stores, calls = [], []
+    for node in ast.walk(fnode):
+        if isinstance(node, ast.Name) and node.id == name and \
+                isinstance(node.ctx, (ast.Store, ast.Del)):
+            stores.append(node)
+        elif isinstance(node, ast.Call) and isinstance(node.func, ast.Attribute) and \
+                isinstance(node.func.value, ast.Name) and node.func.value.id == name and \
+                node.func.attr not in ('copy', 'index', 'count'):
+            calls.append(node)
+        elif isinstance(node, ast.Subscript) and isinstance(node.value, ast.Name) and \
+                node.value.id == name and isinstance(node.ctx, (ast.Store, ast.Del)):
+            stores.append(node)
+        elif isinstance(node, ast.AugAssign) and isinstance(node.target, ast.Name) and \
+                node.target.id == name:
+            stores.append(node)
+    return stores, calls
+
+
+def sequence_maps(fnode) -> dict:
+    """name -> SeqMap for every local list that is provably an in-order map"""
+    result = {}
+    for block in _blocks(fnode):
+        for index, stmt in enumerate(block):
+            target = value = None
+            if isinstance(stmt, ast.Assign) and len(stmt.targets) == 1 and \
+                    isinstance(stmt.targets[0], ast.Name):
+                target, value = stmt.targets[0].id, stmt.value
+            elif isinstance(stmt, ast.AnnAssign) and isinstance(stmt.target, ast.Name):
+                target, value = stmt.target.id, stmt.value
+            elif isinstance(stmt, ast.Return):
+                target, value = '<return>', stmt.value
+            if value is None:
+                continue
+            if isinstance(value, ast.ListComp):
+                gens = value.generators
+                if len(gens) == 1 and not gens[0].ifs and not gens[0].is_async and \
+                        isinstance(gens[0].target, ast.Name):
+                    found = SeqMap(target, gens[0].iter, gens[0].target.id, value.elt,
+                                   [stmt], 'comprehension')
+                    if target != '<return>':
+                        stores, calls = _mutations(fnode, target)
+                        if len(stores) != 1 or calls:
+                            continue
+                    result[target] = found
+                continue
+            empty = (isinstance(value, ast.List) and not value.elts) or (
+                isinstance(value, ast.Call) and ast.unparse(value.func) == 'list'
+                and not value.args and not value.keywords)
+            if not empty or target == '<return>':
+                continue
+            stores, calls = _mutations(fnode, target)
+            if len(stores) != 1 or len(calls) != 1 or calls[0].func.attr != 'append' or \
+                    len(calls[0].args) != 1 or calls[0].keywords:
+                continue
+            for later in block[index + 1:]:
+                if isinstance(later, ast.For) and any(c is calls[0] for c in ast.walk(later)):
+                    appends = [k for k, b in enumerate(later.body)
+                               if isinstance(b, ast.Expr) and b.value is calls[0]]
+                    if later.orelse or not isinstance(later.target, ast.Name) or \
+                            not straight_line(later.body) or len(appends) != 1:
+                        break
+                    elt = substitute_temps(later.body[:appends[0]], calls[0].args[0])
+                    result[target] = SeqMap(target, later.iter, later.target.id, elt,
+                                            [stmt, later], 'append-loop')
+                    break
+    return result
